@@ -31,6 +31,11 @@ let hex_of_n (x : n) : string =
 let pad_hex n s = let w = 4 * n in if String.length s >= w then String.sub s (String.length s - w) w else String.make (w - String.length s) '0' ^ s
 
 let res_str = function C10_Ok v -> hex_of_big v | C10_MathError -> "EXC MathError" | C10_OutOfFuel -> "OUTOFFUEL"
+  | C10_Exception -> "EXC Exception" | C10_OutOfBounds -> "OUTOFBOUNDS"
+let rec z_of_int i = if i = 0 then Z0 else if i > 0 then Zpos (pos_of_int i) else Zneg (pos_of_int (- i))
+let binop_of = function "add" -> Some OpAdd | "sub" -> Some OpSub | "mul" -> Some OpMul | "div" -> Some OpDiv | "mod" -> Some OpMod
+  | "and" -> Some OpAnd | "or" -> Some OpOr | "xor" -> Some OpXor | _ -> None
+let string_of_chars l = String.concat "" (List.map (fun c -> String.make 1 (char_of_ascii c)) l)
 let b01 b = if b then "1" else "0"
 let canon_me (m, e) = (* canonical m*2^e with m odd (or 0 0) *)
   let m = ref (int_of_n m) and e = ref (int_of_n e) in
@@ -60,7 +65,7 @@ let () =
       | "not" -> hex_of_big (c10_not (a ())), pad_hex n (hex_of_n (N.sub (N.sub (N.pow (n_of_int 2) (c10_spec_width nn)) (n_of_int 1)) (va ())))
       | "incr" -> hex_of_big (c10_incr (a ())), pad_hex n (hex_of_n (N.modulo (N.add (va ()) (n_of_int 1)) (N.pow (n_of_int 2) (c10_spec_width nn))))
       | "shl" -> let s = n_of_int (int_of_string t.(3)) in hex_of_big (c10_shl (a ()) s), pad_hex n (hex_of_n (c10_spec_shift nn true (va ()) s))
-      | "shr" -> let s = n_of_int (int_of_string t.(3)) in hex_of_big (c10_shr (a ()) s), pad_hex n (hex_of_n (c10_spec_shift nn false (va ()) s))
+      | "shr" -> let s = n_of_int (int_of_string t.(3)) in res_str (c10_shr_checked (a ()) s), pad_hex n (hex_of_n (c10_spec_shift nn false (va ()) s))
       | "lt" -> b01 (c10_lt (a ()) (b ())), b01 (c10_spec_cmp CmpLt (va ()) (vb ()))
       | "le" -> b01 (c10_le (a ()) (b ())), b01 (c10_spec_cmp CmpLe (va ()) (vb ()))
       | "gt" -> b01 (c10_gt (a ()) (b ())), b01 (c10_spec_cmp CmpGt (va ()) (vb ()))
@@ -69,26 +74,77 @@ let () =
       | "ne" -> b01 (c10_ne (a ()) (b ())), b01 (c10_spec_cmp CmpNe (va ()) (vb ()))
       | "assign" -> let x = n_of_hex t.(2) in hex_of_big (c10_assign nn x), pad_hex n (hex_of_n (N.modulo x (N.pow (n_of_int 2) (c10_spec_width nn))))
       | "signed" -> let x = int_of_string t.(2) in
-          if x < 0 then "EXC Exception", "EXC Exception"
-          else hex_of_big (c10_assign nn (n_of_int x)), pad_hex n (hex_of_n (N.modulo (n_of_int x) (N.pow (n_of_int 2) (c10_spec_width nn))))
-      | "default" -> hex_of_big (c10_assign nn N0), pad_hex n "0"
-      | "limits" -> let z = hex_of_big (c10_min nn) in "101111 2 " ^ z ^ z ^ z ^ z ^ z, "101111 2 " ^ String.concat "" (List.init 5 (fun _ -> pad_hex n "0"))
+          res_str (c10_ctor_signed nn (z_of_int x)),
+          (if x < 0 then "EXC Exception" else pad_hex n (hex_of_n (N.modulo (n_of_int x) (N.pow (n_of_int 2) (c10_spec_width nn)))))
+      | "default" -> hex_of_big (c10_ctor_default nn), pad_hex n "0"
+      | "limits" ->
+          let l = c10_numeric_limits nn in
+          let i x = string_of_int (int_of_n x) in
+          let flags = String.concat "" (List.map b01 [l.c10_l_is_specialized; l.c10_l_is_signed; l.c10_l_is_integer; l.c10_l_is_exact;
+             l.c10_l_has_infinity; l.c10_l_has_quiet_NaN; l.c10_l_has_signaling_NaN; l.c10_l_has_denorm_loss; l.c10_l_is_iec559;
+             l.c10_l_is_bounded; l.c10_l_is_modulo; l.c10_l_traps; l.c10_l_tinyness_before]) in
+          let ints = String.concat "," [i l.c10_l_radix; i l.c10_l_digits; i l.c10_l_min_exponent; i l.c10_l_min_exponent10; i l.c10_l_max_exponent;
+             i l.c10_l_max_exponent10; i l.c10_l_has_denorm_plus1; i l.c10_l_round_style_plus1] in
+          let vals = String.concat "," (List.map hex_of_big [l.c10_l_min; l.c10_l_max; l.c10_l_epsilon; l.c10_l_round_error; l.c10_l_infinity;
+             l.c10_l_quiet_NaN; l.c10_l_signaling_NaN; l.c10_l_denorm_min]) in
+          let z = pad_hex n "0" in
+          let mx = pad_hex n (hex_of_n (N.sub (N.pow (n_of_int 2) (c10_spec_width nn)) (n_of_int 1))) in
+          flags ^ " " ^ ints ^ " " ^ vals,
+          (* the spec: an unsigned exact bounded modulo integer type of radix 2 with w digits, no floating-point features *)
+          "1011000001100 " ^ String.concat "," ["2"; string_of_int (16 * n); "0"; "0"; "0"; "0"; "1"; "1"] ^ " " ^ String.concat "," [z; mx; z; z; z; z; z; z]
+      | "consts" ->
+          let i x = string_of_int (int_of_n x) in
+          String.concat " " [i c10_bits; string_of_int n; i c10_param_hexdigits; i c10_bitmask; i c10_compbitmask; i c10_overflowmask;
+             i c10_param_uintmax_digits; i c10_param_double_digits; i c10_param_size_t_bits; i c10_param_touint_bits],
+          String.concat " " ["16"; string_of_int ((k + 15) / 16); "4"; "65535"; "4294901760"; "1"; "64"; "53"; "64"; "32"]
       | "mixl" | "mixr" ->
-          let big = big_of_hex t.(3) and u = c10_assign nn (n_of_hex t.(4)) in
-          let (x, y) = if op = "mixl" then (big, u) else (u, big) in
-          let vx = c10_val x and vy = c10_val y in
-          let sp o = (match c10_spec_binop nn o vx vy with Some v -> pad_hex n (hex_of_n v) | None -> "EXC MathError") in
+          let big = big_of_hex t.(3) and u = n_of_hex t.(4) in
+          let ut = c10_assign nn u in
           let fuel = nat_of_int (int_of_string t.(5)) in
-          (match t.(2) with
-           | "add" -> hex_of_big (c10_add x y), sp OpAdd
-           | "sub" -> hex_of_big (c10_sub x y), sp OpSub
-           | "mul" -> hex_of_big (c10_mul n2 x y), sp OpMul
-           | "div" -> res_str (c10_div fuel x y), sp OpDiv
-           | "mod" -> res_str (c10_mod fuel x y), sp OpMod
-           | _ -> "UNKNOWN-OP", "UNKNOWN-OP")
-      | "stream" -> let s = String.concat "" (List.map (fun c -> String.make 1 (char_of_ascii c)) (c10_print (a ()))) in s ^ "|42", pad_hex n (hex_of_n (va ())) ^ "|42"
+          (match binop_of t.(2) with
+           | Some o ->
+             let (vx, vy) = if op = "mixl" then (c10_val big, c10_val ut) else (c10_val ut, c10_val big) in
+             res_str (if op = "mixl" then c10_free_right n2 fuel o big u else c10_free_left n2 fuel o u big),
+             (match c10_spec_binop nn o vx vy with Some v -> pad_hex n (hex_of_n v) | None -> "EXC MathError")
+           | None -> "UNKNOWN-OP", "UNKNOWN-OP")
+      | "mixsl" | "mixsr" ->
+          (* signed built-in operand: k mixsl|mixsr <op> <big> <y decimal> <fuel> [type] *)
+          let big = big_of_hex t.(3) and y = int_of_string t.(4) in
+          let fuel = nat_of_int (int_of_string t.(5)) in
+          (match binop_of t.(2) with
+           | Some o ->
+             res_str (if op = "mixsl" then c10_free_right_signed n2 fuel o big (z_of_int y) else c10_free_left_signed n2 fuel o (z_of_int y) big),
+             (if y < 0 then "EXC Exception" else
+                let vy = N.modulo (n_of_int y) (N.pow (n_of_int 2) (c10_spec_width nn)) in
+                let (vx, vy) = if op = "mixsl" then (c10_val big, vy) else (vy, c10_val big) in
+                (match c10_spec_binop nn o vx vy with Some v -> pad_hex n (hex_of_n v) | None -> "EXC MathError"))
+           | None -> "UNKNOWN-OP", "UNKNOWN-OP")
+      | "self" ->
+          (* compound operator with both operands the same object: k self <op> <big> <fuel> *)
+          let x = big_of_hex t.(3) in
+          let fuel = nat_of_int (int_of_string t.(4)) in
+          (match binop_of t.(2) with
+           | Some o -> res_str (c10_apply n2 fuel o x x),
+                       (match c10_spec_binop nn o (c10_val x) (c10_val x) with Some v -> pad_hex n (hex_of_n v) | None -> "EXC MathError")
+           | None -> "UNKNOWN-OP", "UNKNOWN-OP")
+      | "hash" -> hex_of_n (c10_hash (a ())), "-"
+      | "stream" ->
+          (* os << std::hex << a << "|" << 255 << "|" << a : the first insertion leaves the stream in decimal *)
+          let (o1, b1) = c10_stream_insert ([], C10_hex) (a ()) in
+          let mid = (match b1 with C10_dec -> "|255|" | C10_hex -> "|ff|" | C10_oct -> "|377|") in
+          let (o2, _) = c10_stream_insert ([], b1) (a ()) in
+          string_of_chars o1 ^ mid ^ string_of_chars o2, pad_hex n (hex_of_n (va ())) ^ "|255|" ^ pad_hex n (hex_of_n (va ()))
+      | "streamsb" ->
+          (* showbase set on the stream: print's digits are unaffected (model of the code after fix C10-6), the flag is still set afterwards *)
+          let (o1, _) = c10_stream_insert ([], C10_dec) (a ()) in
+          string_of_chars o1 ^ "|255|0xff", pad_hex n (hex_of_n (va ())) ^ "|255|0xff"
       | "touint" -> string_of_int (int_of_n (c10_touint (a ()))), string_of_int (int_of_n (N.modulo (va ()) (N.pow (n_of_int 2) (n_of_int 32))))
-      | "todouble" -> canon_me (c10_todouble (a ())), "VAL " ^ hex_of_n (va ())
+      | "todouble" ->
+          let (m, e) = c10_todouble (a ()) in
+          let (sm, se) = c10_spec_todouble (va ()) in
+          let tr = c10_todouble_trace (a ()) in
+          let last_ok = (match List.rev tr with [] -> m = N0 | x :: _ -> x = m) in
+          canon_me (m, e) ^ (if (m, e) = (sm, se) && last_ok then "" else " MODEL-SPEC-MISMATCH"), "VAL " ^ hex_of_n (va ())
       | "print" -> String.concat "" (List.map (fun c -> String.make 1 (char_of_ascii c)) (c10_print (a ()))), pad_hex n (hex_of_n (va ()))
       | "max" -> hex_of_big (c10_max nn), pad_hex n (hex_of_n (N.sub (N.pow (n_of_int 2) (c10_spec_width nn)) (n_of_int 1)))
       | "min" -> hex_of_big (c10_min nn), pad_hex n "0"
